@@ -27,6 +27,7 @@ resolve with "THIS" / "OTHER".
 Added while testing against seeded changes: Also: Conflict.cleanup deletes each associated file inside the loop and a
 swallowed FileNotFoundError continues with the next file; resolve() runs cleanup after a successful do() and keeps a
 conflict only on NotImplementedError.
+Fourth round: cherrypick-on-either-side — Merger.make_merger derives kwargs["cherrypick"] from base_is_ancestor and base_is_other_ancestor.
 Does not decide: that Merge3 yields markers exactly for conflicting regions (library), nor sentinel collisions with user text.
 """
 #: (class, conflict indicator, roles of the locals the indicator names — bound by what they hold, see astutil.bind_roles)
@@ -159,9 +160,17 @@ def run(ctx):
     kept_ok = all(any(gr.nodes[k].lineno >= h.ast.lineno and gr.nodes[k].lineno <= h.ast.end_lineno for h in hs if handler_types(h.ast) == ["NotImplementedError"] or set(handler_types(h.ast)) == {"NotImplementedError"}) for k in keep) and bool(keep)
     ctx.check("resolve-removes-record", wr, kept_ok, "a processed conflict stays in the list only when its action is not implemented (NotImplementedError)", message="a conflict selected for resolution is kept (or dropped) on the wrong condition")
     ctx.check("resolve-removes-record", wr, all(any(norm(a) == "new_conflicts" for c in gr.nodes[i].calls() if call_attr(c) == "set_conflicts" for a in c.args) for i in setc), "what is stored afterwards is the list of not-selected (plus unresolvable) conflicts")
+    # ---- the text merger is told about a cherrypick whenever BASE is outside either side's ancestry -----------------------
+    fmm = repo.func(MG, "Merger.make_merger")
+    cp = [a.value for a in walk_own(fmm) if isinstance(a, ast.Assign) and any(isinstance(t, ast.Subscript) and const_value(t.slice, None) == "cherrypick" for t in a.targets)]
+    ctx.require(len(cp) == 1, f"{MG}:Merger.make_merger: kwargs['cherrypick'] = … not found")
+    attrs = {n_.attr for n_ in ast.walk(cp[0]) if isinstance(n_, ast.Attribute)} | {n_.id for n_ in ast.walk(cp[0]) if isinstance(n_, ast.Name)}
+    need_ = {"base_is_ancestor", "base_is_other_ancestor"}
+    ctx.check("cherrypick-on-either-side", f"{MG}:Merger.make_merger", need_ <= attrs, "is_cherrypick is derived from both base_is_ancestor and base_is_other_ancestor", construct=norm(cp[0])[:100], message=f"make_merger computes cherrypick from {sorted(attrs & need_)} only: a back-out merge (BASE in THIS's ancestry but not in OTHER's) runs Merge3 without is_cherrypick, the OTHER half of a conflict region carries lines that merely repeat BASE — the file does not hold the conflicting regions of the three-way merge of BASE, THIS and OTHER")
 
 
 MUTANTS = [
+    Mutant("cherrypick decided from THIS's ancestry only", MG, "            kwargs[\"cherrypick\"] = (\n                not self.base_is_ancestor or not self.base_is_other_ancestor\n            )\n", "            kwargs[\"cherrypick\"] = not self.base_is_ancestor\n", expect="cherrypick-on-either-side"),
     Mutant("record dropped in the weave merger", MG, "        if base_lines is not None:\n            # Conflict\n            self._raw_conflicts.append((\"text conflict\", trans_id))\n", "        if base_lines is not None:\n            # Conflict\n", expect="record-and-helpers-paired"),
     Mutant("marker tested instead of the sentinel", MG, "                if line.startswith(start_marker):", "                if line.startswith(b\"<<<<<<<\"):", expect="sentinel-def-use"),
     Mutant("diff3 conflict recorded on every status", MG, "            if status == 1:\n                name = self.tt.final_name(trans_id)", "            if status in (0, 1):\n                name = self.tt.final_name(trans_id)", expect="recorded-only-on-conflict"),
